@@ -76,7 +76,8 @@ def run(ck: Check) -> None:
     common.assert_repo_imports()
     ck.coq_props()
     thorough = ck.tier == "thorough"
-    shapes = shapes_upto(36, 4) + [sh for sh in itertools.product((1, 2), repeat=5)]
+    maxn = 36 if thorough else 20
+    shapes = shapes_upto(maxn, 4) + [sh for sh in itertools.product((1, 2), repeat=5)]
     work = []
     for sh in shapes:
         n = math.prod(sh)
@@ -179,7 +180,7 @@ def run(ck: Check) -> None:
     ck.coverage.update({
         "evaluations": len(cases) + nonflat,
         "distinct_nontrivial": len(nontriv),
-        "rule": "every shape of order<=4 with numel<=36 and order 5 with dims<=2, every 0<=start<=end<=numel, both copies (exhaustive), plus random shapes up to numel 20000; non-trivial = distinct (shape,start,end) whose result has >=2 pieces",
+        "rule": f"every shape of order<=4 with numel<={maxn} and order 5 with dims<=2, every 0<=start<=end<=numel, both copies (exhaustive), plus random shapes up to numel 20000; non-trivial = distinct (shape,start,end) whose result has >=2 pieces",
         "exhaustive": True,
         "samples": [{"shape": list(c[0]), "start": c[1], "end": c[2], "copy": ["fsdp", "hsdp"][c[3]], "pieces": c[5]} for c in (cases[len(cases) // 3], cases[len(cases) // 2], cases[-1])],
         "distribution": {"pieces_per_result": {str(k): v for k, v in sorted(hist.items())}, "orders": {str(o): sum(1 for sh, _ in work if len(sh) == o) for o in range(6)}, "random_cases": len(rnd), "nonflat_cases": nonflat},
